@@ -672,7 +672,32 @@ def install_recorder_fault(recorder, fault, cur):
         recorder.write_record = write_record
 
 
-def real_session_sequence(exchanges, recorder_params=None, keep_alive=True, ignore_length=False, fault=None):
+def build_app_clients(argv):
+    """The HTTP client and web client as the APPLICATION wires them: argv -> AppArgumentParser ->
+    Builder -> NetworkSetupTask + ClientSetupTask (wpull/application/tasks).  Only the resolver of
+    the pool the tasks built is replaced (no DNS in the sandbox)."""
+    from wpull.application.builder import Builder
+    from wpull.application.options import AppArgumentParser
+    from wpull.application.tasks.download import ClientSetupTask
+    from wpull.application.tasks.network import NetworkSetupTask
+    from wpull.pipeline.app import AppSession
+    args = AppArgumentParser().parse_args(list(argv))
+    builder = Builder(args)
+    session = AppSession(builder.factory, args, io.StringIO())
+    compat.run(compat._ensure(NetworkSetupTask().process(session)))
+    compat.run(compat._ensure(ClientSetupTask().process(session)))
+    client, web_client = builder.factory['HTTPClient'], builder.factory['WebClient']
+    client._connection_pool._resolver = fakenet.FakeResolver()
+    return client, web_client, args
+
+
+def options_of_argv(argv):
+    """(keep_alive, ignore_length) as the documented options say - read off the command line by
+    the harness, not off the objects the application built"""
+    return ('--no-http-keep-alive' not in argv, '--ignore-length' in argv)
+
+
+def real_session_sequence(exchanges, recorder_params=None, keep_alive=True, ignore_length=False, fault=None, wiring=None):
     """exchanges: list of dicts {segs, eof, method, version, path}.  Runs the REAL
     Client/Session (and, when `recorder_params` is given, the REAL WARCRecorder
     listening to it) against a reactive in-memory server, strictly lock-step.
@@ -683,6 +708,8 @@ def real_session_sequence(exchanges, recorder_params=None, keep_alive=True, igno
     from wpull.network.pool import ConnectionPool
     import wpull.network.connection as wc
     import functools
+    wiring = wiring or {}
+    app = build_app_clients(wiring['argv']) if wiring.get('argv') is not None else None
 
     async def go():
         net = fakenet.FakeNet()
@@ -706,7 +733,7 @@ def real_session_sequence(exchanges, recorder_params=None, keep_alive=True, igno
             return data
         wc.Connection.read = asyncio.coroutine(read)
         wc.BaseConnection.readline = asyncio.coroutine(readline)
-        cur = {'declog': []}
+        cur = {'declog': [], 'notified': []}
         o_dec, o_flush = Stream._decompress_data, Stream._flush_decompressor
 
         def logged(orig):
@@ -727,10 +754,22 @@ def real_session_sequence(exchanges, recorder_params=None, keep_alive=True, igno
         results = []
         try:
             with net:
-                pool = ConnectionPool(resolver=fakenet.FakeResolver())
-                client = Client(connection_pool=pool,
-                                stream_factory=functools.partial(Stream, keep_alive=keep_alive,
-                                                                 ignore_length=ignore_length))
+                if app is not None:
+                    client, web_client = app[0], app[1]
+                else:
+                    pool = ConnectionPool(resolver=fakenet.FakeResolver())
+                    client = Client(connection_pool=pool,
+                                    stream_factory=functools.partial(Stream, keep_alive=keep_alive,
+                                                                     ignore_length=ignore_length))
+                    web_client = None
+                if wiring.get('web') and web_client is None:
+                    from wpull.protocol.http.web import WebClient
+                    web_client = WebClient(client)
+                # every HTTP session this client creates reports its response data
+                client.event_dispatcher.add_listener(
+                    Client.ClientEvent.new_session,
+                    lambda sess: sess.event_dispatcher.add_listener(sess.Event.response_data,
+                                                                    lambda d: cur['notified'].append(bytes(d))))
                 if recorder_params is not None:
                     from wpull.warc.recorder import WARCRecorder
                     recorder = WARCRecorder(recorder_params['filename'], params=recorder_params['params'])
@@ -739,7 +778,7 @@ def real_session_sequence(exchanges, recorder_params=None, keep_alive=True, igno
                         install_recorder_fault(recorder, fault, cur)
                 for k, e in enumerate(exchanges):
                     cur['k'] = k
-                    request = Request('http://h' + e.get('path', '/p%d' % k), method=e.get('method', 'GET'),
+                    request = Request('http://' + wiring.get('host', 'h') + e.get('path', '/p%d' % k), method=e.get('method', 'GET'),
                                       version=e.get('version', 'HTTP/1.1'))
                     for n, v in e.get('req_fields', ()):
                         request.fields.add(n, v)
@@ -765,10 +804,20 @@ def real_session_sequence(exchanges, recorder_params=None, keep_alive=True, igno
                     declog = cur['declog'] = []
                     nreq = len(shared['requests'])
 
+                    cur['notified'] = notified
+
+                    async def one_web():
+                        # through WebClient / WebSession, as the processor does
+                        ws = web_client.session(request)
+                        with ws:
+                            response = await compat._ensure(ws.start())
+                            await compat._ensure(ws.download(out, duration_timeout=wiring.get('duration_timeout')))
+                            return response
+
                     async def one():
+                        if wiring.get('web'):
+                            return await one_web()
                         session = client.session()
-                        session.event_dispatcher.add_listener(session.Event.response_data,
-                                                              lambda d: notified.append(bytes(d)))
                         leave = e.get('leave', 'full')
                         box = {}
                         try:
@@ -1218,4 +1267,100 @@ def real_redirect(case, recorder_params):
         out['requests'] = [(h, t) for h, t, _ in shared['requests']]
         out['sent'] = shared['sent']
         return out
+    return arun(go())
+
+
+# ------------------------------------------------------------------ overlapping sessions on one recorder
+class InterleaveServer:
+    """The response for `/s<i>` is delivered piece by piece when the harness calls feed(i)."""
+
+    def __init__(self, shared):
+        self.shared = shared
+        self.buf = b''
+
+    def on_write(self, conn, data):
+        self.buf += data
+        while b'\r\n\r\n' in self.buf:
+            head, _, self.buf = self.buf.partition(b'\r\n\r\n')
+            path = head.split(b' ')[1].decode('latin-1')
+            i = int(path[2:])
+            self.shared['conn'][i] = conn
+            self.shared['requests'].append((self.shared['net'].conns.index(conn), i, head + b'\r\n\r\n'))
+
+    def on_close(self, conn):
+        if not conn.server_closed and not conn.reader._eof:
+            conn.reader.feed_eof()
+            conn.server_closed = True
+
+
+def real_interleave(case, recorder_params):
+    """2-3 HTTP sessions of ONE Client (one pool, one WARCRecorder listening) open at the same
+    time: `steps` is the interleaving - ('create', i) calls client.session(), ('start', i) lets
+    session i run start()+download(), ('feed', i) makes the server deliver the next piece of
+    response i.  Whatever is left is delivered round-robin at the end."""
+    from wpull.protocol.http.client import Client
+    from wpull.protocol.http.request import Request
+    from wpull.network.pool import ConnectionPool
+    from wpull.warc.recorder import WARCRecorder
+
+    async def go():
+        net = fakenet.FakeNet()
+        pieces = [list(p) for p in case['pieces']]
+        shared = {'net': net, 'conn': {}, 'requests': []}
+        net.listen('10.0.0.1', 80, lambda: InterleaveServer(shared))
+        out = {}
+        with net:
+            client = Client(connection_pool=ConnectionPool(resolver=fakenet.FakeResolver(), max_host_count=case['limit']))
+            recorder = WARCRecorder(recorder_params['filename'], params=recorder_params['params'])
+            recorder.listen_to_http_client(client)
+            sessions, tasks, sinks = {}, {}, {}
+
+            async def spin(n):
+                for _ in range(n):
+                    await asyncio.sleep(0)
+
+            def feed(i):
+                conn = shared['conn'].get(i)
+                if conn is not None and pieces[i] and not conn.server_closed:
+                    conn.send(pieces[i].pop(0))
+                    if not pieces[i] and case['eofs'][i]:
+                        conn.close()
+
+            async def run(i):
+                session = sessions.get(i) or client.session()
+                sinks[i] = io.BytesIO()
+                with session:
+                    response = await compat._ensure(session.start(Request('http://h/s%d' % i)))
+                    await compat._ensure(session.download(sinks[i]))
+                    return response
+            for kind, i in case['steps']:
+                if kind == 'create':
+                    sessions[i] = client.session()
+                elif kind == 'start':
+                    tasks[i] = asyncio.ensure_future(run(i))
+                else:
+                    feed(i)
+                await spin(8)
+            for i in range(len(pieces)):
+                if i not in tasks:
+                    tasks[i] = asyncio.ensure_future(run(i))
+            for _ in range(60):
+                if all(t.done() for t in tasks.values()):
+                    break
+                for i in range(len(pieces)):
+                    feed(i)
+                    await spin(6)
+            for i, t in tasks.items():
+                if not t.done():
+                    t.cancel()
+                    out[i] = ('stalled', None, b'')
+                    continue
+                try:
+                    response = t.result()
+                    out[i] = ('ok', response.status_code, sinks[i].getvalue())
+                except Exception as e:
+                    out[i] = ('exc', classify_exc(e), b'')
+            await spin(5)
+            recorder.close()
+        return out, [(c, i) for c, i, _ in shared['requests']]
     return arun(go())
